@@ -1,7 +1,7 @@
 """C05 — searches maximise the objective(s).
 
 Real code: `CBO` on a finite candidate set (1-D integer space 0..K-1), `kappa = 0`, `acq_optimizer="sampling"`,
-`filter_duplicated=False`.  A case is a HISTORY with one or more surrogate fits: `search(max_evals=n_init)` on the
+`filter_duplicated` False or True (a spy on `Space.transform` tells which candidates reach the acquisition).  A case is a HISTORY with one or more surrogate fits: `search(max_evals=n_init)` on the
 given initial points (first fit), then further `tell` rounds that add — and improve on — observations (one fit per
 round, possibly with failed evaluations `"F"`), `ask(1)` after every fit; at the last fit every candidate has been
 observed.  Observed environment (spies; nothing is compared on private attributes): what `Space.rvs` sampled (the
@@ -21,7 +21,10 @@ L3 (the property on the implementation's outputs): at every fit the fitted targe
     candidate; its score does not change when a constant vector is added to the objectives or they are multiplied by a
     positive factor (1e-9 .. 1e9); independent objectives + Linear/Chebyshev/AugChebyshev: the proposal is not beaten in
     every objective; monotone problems with default exploration: late proposals in the upper half, and — started from
-    initial points far below the maximiser — well above the best initial point.
+    initial points far below the maximiser — well above the best initial point; batches `ask(n>1)` (topk, boltzmann, qUCB) after the
+    last fit are made of the best candidates that reached the acquisition (verdict by the Lean checker `isNSmallestB`); continuous
+    monotone problems with `update_prior=True` (the observations the sampling prior is re-fitted on vs `priorMask`, L2) and with the
+    acquisition optimisers lbfgs / ga / mixedga: late proposals at the maximiser.
 """
 import concurrent.futures as cf
 import json
@@ -63,13 +66,27 @@ def _consistent(objs, scores):
     return True
 
 
+# batches asked after the last fit, stratified: multi-point strategy x filter_duplicated x shape of the history.  What `filter_duplicated=True`
+# (CBO's default) removes from the drawn sample depends on the history: configurations that were ASKED are removed, so after `fit_surrogate`
+# (nothing asked) only the repetitions inside the sample go, after tell rounds the initial points and the proposals go as well, and when every
+# candidate was asked nothing is left and the optimizer falls back on the unfiltered sample
+BATCH_COMBOS = [("topk", True, "fit_surrogate"), ("boltzmann", True, "rounds"), ("qUCB", True, "fit_surrogate"), ("topk", True, "rounds"),
+                ("boltzmann", True, "fit_surrogate"), ("qUCBd", True, "rounds"), ("topk", False, "single"), ("boltzmann", False, "rounds"),
+                ("topk", True, "single"), ("qUCB", False, "single"), ("boltzmann", True, "single"), ("topk", False, "fit_surrogate")]
+
+
 def _gen_case(rng, t):
+    forced = BATCH_COMBOS[(t // 5) % len(BATCH_COMBOS)] if t % 5 == 4 else None
     surrogate = SURROGATES[t % 3] if rng.random() < 0.8 else rng.choice(SURROGATES)
     nobj = rng.choice([0, 0, 2, 2, 3, 3])  # 0 = one objective (plain scalar), k>=2 = k-tuple
     strategy = STRATS[(t // 3) % 5] if nobj >= 1 else "Chebyshev"
     scaler = SCALERS[(t // 15) % 4] if rng.random() < 0.85 else rng.choice(SCALERS)
     K = rng.choice([4, 5, 6, 8, 10])
     kind = "aligned" if nobj <= 1 or rng.random() < 0.8 else "pareto"
+    if forced:
+        surrogate = ["ET", "RF"][(t // 5) % 2]
+        kind = "aligned"
+        K = max(K, 6)
     sign = rng.choice(["pos", "pos", "neg", "mixed"])
     m = max(nobj, 1)
     for _ in range(20):
@@ -115,11 +132,17 @@ def _gen_case(rng, t):
         "order": order, "seed": rng.randrange(1 << 20), "acq": rng.choice(["UCB", "UCBd"]) if surrogate != "GP" else "UCB",
         "variants": rng.random() < 0.5, "n_init": K, "rounds": [], "fail": [], "ff": "min",
     }
+    # whether the optimizer removes repetitions and already-asked configurations from the candidates it draws (CBO's default: it does)
+    case["filter_dup"] = forced[1] if forced else rng.random() < 0.5
     # shape of the history: one fit / several fits with improving observations / failed evaluations
     r = rng.random()
+    if forced:
+        r = {"rounds": 0.2, "single": 0.9, "fit_surrogate": 0.7}[forced[2]]
     if r < 0.4 and K >= 5:
         by_score = sorted(range(K), key=lambda c: base[c]) if kind == "aligned" and rng.random() < 0.7 else order[:]
         n_init = rng.randint(2, K - 2)
+        if forced:
+            n_init = 2      # most candidates are told, not asked: they are what a filtered sample still contains at the last fit
         init, rest = by_score[:n_init], by_score[n_init:]
         rng.shuffle(init)
         k = rng.choice([1, 2, 2, 3])
@@ -146,12 +169,12 @@ def _gen_case(rng, t):
         # rows may be failed evaluations
         case["route"] = "fit_surrogate"
         case["n_initial_points"] = rng.choice([K, K, 10, K + 3, 30, 1])
-        if K >= 4 and rng.random() < 0.35:
+        if K >= 4 and rng.random() < 0.35 and not forced:
             nf = rng.randint(1, K - 1) if rng.random() < 0.3 else rng.randint(1, max(1, K // 3))
             fail = rng.sample(range(K), nf)
             succ = [c for c in order if c not in fail]
             case.update({"order": succ + sorted(fail), "fail": sorted(fail), "ff": rng.choice(["min", "min", "mean"])})
-    if nobj >= 2 and not case["fail"] and rng.random() < 0.2:
+    if nobj >= 2 and not case["fail"] and rng.random() < 0.2 and not forced:
         # moo_lower_bounds: region of interest for some objectives (penalty after scaling); bound at a quantile of the values
         lb = []
         for i in range(m):
@@ -161,13 +184,17 @@ def _gen_case(rng, t):
             case["bounds"] = lb
     if nobj >= 2 and rng.random() < 0.15:
         case["strategy_obj"] = True   # a MoScalarFunction instance instead of the strategy name
-    if not case["fail"] and surrogate != "GP" and rng.random() < 0.2:
+    if forced:
+        # (with filter_duplicated the boltzmann draws avoid repetitions while they can: only the first member is judged, a short batch will do)
+        case["interp"] = True
+        case["batch"] = {"strategy": forced[0], "n": 24 if forced[0] == "boltzmann" and not forced[1] else rng.choice([2, 3, 5])}
+    elif not case["fail"] and surrogate != "GP" and rng.random() < 0.2:
         case["lies"] = rng.choice(["cl_max", "cl_max", "cl_min", "cl_mean"])   # constant-liar batch after the last fit
     elif not case["fail"] and surrogate != "GP" and kind == "aligned" and not case.get("bounds") and rng.random() < 0.3:
         # one-shot / q-acquisition batch after the last fit (every candidate observed, kappa = 0, interpolating forest)
         strat = rng.choice(["topk", "topk", "boltzmann", "qUCB", "qUCBd"])
         case["interp"] = True
-        case["batch"] = {"strategy": strat, "n": 24 if strat == "boltzmann" else rng.choice([2, 3, 5])}
+        case["batch"] = {"strategy": strat, "n": 24 if strat == "boltzmann" and not case["filter_dup"] else rng.choice([2, 3, 5])}
     return case
 
 
@@ -208,12 +235,25 @@ class _Spies:
         import deephyper.skopt.moo as moo
 
         self.om, self.sp, self.moo = om, sp, moo
-        self.rec = {"fit": [], "acq": [], "rvs": [], "scal": [], "spy_error": [], "lies": [], "lie_flag": False}
+        self.rec = {"fit": [], "acq": [], "rvs": [], "scal": [], "spy_error": [], "lies": [], "lie_flag": False, "tf": [], "ntf": 0}
 
     def __enter__(self):
         om, sp, moo, rec = self.om, self.sp, self.moo, self.rec
         self._clone, self._acq, self._rvs = om.clone, om._gaussian_acquisition, sp.Space.rvs
+        self._transform = sp.Space.transform
         self._moo = dict(moo.moo_functions)
+
+        def transform_spy(this, X, *a, **k):
+            # which points (original space) a transformed array stands for: with `filter_duplicated=True` the candidates that reach the
+            # acquisition are a filtered subset of what `Space.rvs` drew
+            out = self._transform(this, X, *a, **k)
+            try:
+                rec["ntf"] += 1
+                rec["tf"].append(([list(x) for x in X], out, rec["ntf"]))
+                del rec["tf"][:-6]
+            except Exception as e:
+                rec["spy_error"].append("transform spy: " + repr(e))
+            return out
 
         def clone_spy(est, **kw):
             e = self._clone(est, **kw)
@@ -243,8 +283,18 @@ class _Spies:
                     mu, _, sd = model.predict(X, return_std=True, disentangled_std=True)
                 else:
                     mu, sd = model.predict(X, return_std=True)
-                cands = rec["rvs"][-1] if rec["rvs"] else []
+                # the candidates the acquisition is evaluated on = the input of the `Space.transform` call that produced X
+                cands = None
+                for pts, arr, _ in reversed(rec["tf"]):
+                    if arr is X or (np.shape(arr) == np.shape(X) and np.array_equal(np.asarray(arr, dtype=float), np.asarray(X, dtype=float))):
+                        cands = pts
+                        break
+                if cands is None:
+                    cands = rec["rvs"][-1] if rec["rvs"] else []
+                    if len(cands) != len(v):
+                        rec["spy_error"].append("acquisition spy: the candidate points behind the acquisition values could not be observed")
                 rec["acq"].append({"mu": np.array(mu, dtype=float).tolist(), "sd": np.array(sd, dtype=float).tolist(),
+                                   "n_drawn": len(rec["rvs"][-1]) if rec["rvs"] else None, "ntf": rec["ntf"],
                                    "kappa": float(kwa.get("kappa", 1.96)), "acq_func": acq_func, "y_opt": None if b.arguments.get("y_opt") is None else float(b.arguments["y_opt"]),
                                    "values": np.array(v, dtype=float).tolist(), "cands": [int(x[0]) for x in cands]})
             except Exception as e:
@@ -285,12 +335,14 @@ class _Spies:
 
         om.Optimizer._tell = tell_spy
         om.clone, om._gaussian_acquisition, sp.Space.rvs = clone_spy, acq_spy, rvs_spy
+        sp.Space.transform = transform_spy
         for k in list(moo.moo_functions):
             moo.moo_functions[k] = wrap(self._moo[k])
         return self
 
     def __exit__(self, *a):
         self.om.clone, self.om._gaussian_acquisition, self.sp.Space.rvs = self._clone, self._acq, self._rvs
+        self.sp.Space.transform = self._transform
         self.om.Optimizer._tell = self._otell
         for k, v in self._moo.items():
             self.moo.moo_functions[k] = v
@@ -337,7 +389,7 @@ def _observe(case):
                 acq_func=case["acq"], kappa=0.0, xi=0.0, acq_optimizer="sampling",
                 scheduler={"type": "periodic-exp-decay", "period": 10, "rate": 0.0},
                 n_initial_points=int(case.get("n_initial_points", n_init)), initial_points=[{"a": int(a)} for a in case["order"][:n_init]],
-                n_points=60 + 10 * K, filter_duplicated=False, objective_scaler=case["scaler"],
+                n_points=60 + 10 * K, filter_duplicated=bool(case.get("filter_dup", False)), objective_scaler=case["scaler"],
                 moo_scalarization_strategy=strategy, moo_scalarization_weight=case["weights"],
                 filter_failures=case.get("ff", "min"), moo_lower_bounds=case.get("bounds"),
                 multi_point_strategy=case.get("lies") or (case.get("batch") or {}).get("strategy") or "cl_max",
@@ -375,7 +427,14 @@ def _observe(case):
             if case.get("batch"):
                 nr = len(rec["rvs"])
                 out["batch"] = [int(x["a"]) for x in search.ask(int(case["batch"]["n"]))]
-                out["batch_fresh"] = [int(x[0]) for x in rec["rvs"][-1]] if len(rec["rvs"]) > nr else None
+                # the q-acquisition strategies draw (and filter) a fresh candidate sample and transform it AFTER the last acquisition call;
+                # the optimizer's current next point is the arg-min of that last acquisition call (a refreshed copy's when asked twice)
+                last_acq = rec["acq"][-1] if rec["acq"] else None
+                if last_acq is not None and rec["tf"] and rec["tf"][-1][2] > last_acq.get("ntf", 0) and len(rec["rvs"]) > nr:
+                    out["batch_fresh"] = [int(x[0]) for x in rec["tf"][-1][0]]
+                else:
+                    out["batch_fresh"] = None
+                out["batch_next_acq"] = last_acq
             out["told_a"] = told
             out["proposals"] = proposals
             out["fits"] = rec["fit"][:nf]      # the constant-liar batch refits copies of the optimizer: not part of the history
@@ -443,6 +502,16 @@ def _observe_safe(case):
         return {"harness_error": str(e)}
 
 
+def _observe_run(item):
+    import time
+
+    kind, case = item
+    t0 = time.time()
+    out = _observe_mono_safe(case) if kind == "mono" else _observe_cont(case)
+    out["wall_s"] = round(time.time() - t0, 1)
+    return out
+
+
 def _observe_mono_safe(case):
     with _Quiet():
         out = _observe_mono(case)
@@ -460,6 +529,14 @@ def _observe_mono_safe(case):
 def _eff_scaler(case, names):
     i = names["keys"].index(case["scaler"])
     return (names["scaler_forest"] if case["surrogate"] in ("RF", "ET") else names["scaler_other"])[i]
+
+
+def _finite_fit(obs, i):
+    f, a = obs["fits"][i], obs["acqs"][i]
+    nums = list(f["y"]) + list(a["mu"]) + list(a["sd"]) + list(a["values"]) + [a["kappa"]] + list(f["w"] or []) + list(f["u"] or [])
+    nums += [v for r in (obs["scaled"][i] if i < len(obs.get("scaled", [])) else []) for v in r]
+    nums += list(obs["ub_scaled"][i]) if i < len(obs.get("ub_scaled", [])) else []
+    return all(np.isfinite(v) for v in nums)
 
 
 def _request(case, obs, eff, i):
@@ -532,9 +609,20 @@ def _judge_fit(ck, case, obs, rep, eff, i, failed_before, pending):
             cond = max(cond, max(abs(v) for v in f["u"]) / spread)
     rel = 1e-9 + 64 * EPS * cond
     ck.count("cond:" + ("<1e3" if cond < 1e3 else "<1e6" if cond < 1e6 else ">=1e6"))
+    if rep.get("nonfinite"):
+        ck.count("fit:non-finite-numbers")
+        bad = {k: v for k, v in (("fitted targets", y_fit), ("surrogate mean", a["mu"]), ("surrogate std", a["sd"]), ("acquisition values", a["values"]))
+               if not all(np.isfinite(x) for x in v)}
+        ck.mismatch(case, {"what": "NaN / inf in " + ", ".join(bad) + ": the model (exact rationals) has no such values", "fit": i,
+                           "first_non_finite_positions": {k: [j for j, x in enumerate(v) if not np.isfinite(x)][:5] for k, v in bad.items()}})
+        if not all(np.isfinite(x) for x in list(y_fit) + list(a["mu"])):
+            return None      # no usable targets / predictions: nothing to judge the proposal against
+        rep = {"targets": None, "contract": True, "acq": [], "choice": None, "skip_l2": True}
     # ---- L2: targets of this fit, from the full history at this moment
     tg = rep["targets"]
-    if tg is None:
+    if tg is None and rep.get("skip_l2"):
+        pass
+    elif tg is None:
         ck.mismatch(case, {"what": "model has no targets (error branch: " + rep.get("targets_err", "") + ") but the implementation fitted", "fit": i})
         tg = None
     else:
@@ -554,8 +642,8 @@ def _judge_fit(ck, case, obs, rep, eff, i, failed_before, pending):
     # ---- L2: acquisition and arg-min
     acq = [float(unrat(v)) for v in rep["acq"]]
     vals = a["values"]
-    ascale = max(max(abs(v) for v in vals), 1e-300)
-    if len(acq) != len(vals) or not all(_close(x, y, ascale, 1e-12) for x, y in zip(acq, vals)):
+    ascale = max(max((abs(v) for v in vals if np.isfinite(v)), default=0.0), 1e-300)
+    if not rep.get("skip_l2") and (len(acq) != len(vals) or not all(_close(x, y, ascale, 1e-12) for x, y in zip(acq, vals))):
         ck.mismatch(case, {"what": "acquisition values differ from mu - kappa*std", "kappa": a["kappa"], "fit": i})
     if a.get("y_opt") is not None and not _close(a["y_opt"], min(y_fit), scale, 1e-12):
         ck.mismatch(case, {"what": "the incumbent y_opt passed to the acquisition is not the minimum of the fitted targets", "y_opt": a["y_opt"],
@@ -567,7 +655,7 @@ def _judge_fit(ck, case, obs, rep, eff, i, failed_before, pending):
     choice = rep["choice"]
     cand = a["cands"]
     prop = obs["proposals"][i]
-    if choice is None or len(cand) != len(vals) or cand[choice] != prop:
+    if not rep.get("skip_l2") and (choice is None or len(cand) != len(vals) or cand[choice] != prop):
         ck.mismatch(case, {"what": "proposal is not the first arg-min candidate of the acquisition", "fit": i,
                            "proposal": prop, "model_choice": None if choice is None or len(cand) != len(vals) else cand[choice]})
     # ---- L3: the property on the implementation's own outputs
@@ -613,7 +701,9 @@ def _judge_fit(ck, case, obs, rep, eff, i, failed_before, pending):
         ck.count("proposal:unobserved-candidates-sampled")
         return None
     tmin = min(y_fit[pos[c]] for c in present)
-    k_hat = int(np.argmin(np.asarray(vals)))
+    # contract of the SURROGATE (not of the acquisition layer, which is code under test): the arg-min of its predicted mean is a candidate of
+    # minimal fitted target; with kappa = 0 the exploitation-only acquisition must then propose such a candidate
+    k_hat = int(np.argmin(np.asarray(a["mu"]))) if len(a["mu"]) == len(cand) else int(np.argmin(np.asarray(vals)))
     contract_met = _close(y_fit[pos[cand[k_hat]]], tmin, scale, 1e-12)
     ck.count("surrogate-contract:" + ("met" if contract_met else "not-met"))
     if prop not in pos:
@@ -624,10 +714,15 @@ def _judge_fit(ck, case, obs, rep, eff, i, failed_before, pending):
     detail.update({"proposal": prop})
     if not contract_met or not succ_present:
         return None
-    if (fail & set(ids)) and tmax_s - tmin_s <= 1e-9 * scale:
-        # every success has the same target (e.g. a single success): the imputed value ties with it by definition of the "min" / "mean"
-        # policies, the arg-min among ties is arbitrary (C05_failures_choice: a failed proposal implies such a tie)
-        ck.count("proposal:all-successes-tie-with-the-failures")
+    fail_present = [c for c in present if c in fail]
+    if fail_present and min(y_fit[pos[c]] for c in fail_present) <= min(y_fit[pos[c]] for c in succ_present) + 1e-9 * scale:
+        # a failed candidate's imputed target ties with - or beats - the best successful candidate THAT REACHED THE ACQUISITION: the arg-min may be
+        # the failure.  Without the duplicate filter that needs every success to have the same target (e.g. a single success: the imputed value is
+        # that value by definition of the "min" / "mean" policies; C05_failures_choice: a failed proposal implies exactly such a tie).  With
+        # filter_duplicated the best successes may have been asked before and be filtered out: what is left can be the worst success (ties with the
+        # "min" imputation) or successes worse than the mean (beaten by the "mean" imputation).  That the imputed target is never better than the best
+        # success OVERALL is clause (b) above.
+        ck.count("proposal:a-failed-candidate-ties-with-or-beats-the-best-successful-candidate-present")
         return None
     if score is not None:
         # verdict by the verified checker `checkChoice` (theorem C05_checker) on the real proposal
@@ -652,7 +747,7 @@ def _judge_fit(ck, case, obs, rep, eff, i, failed_before, pending):
                 failed_before.add("chosen-not-max")
 
         pending.append((req, verdict))
-        return (score[prop], best) if prop not in fail else None
+        return (score[prop], best, tuple(present)) if prop not in fail else None
     if prop in fail:
         ck.fail(_fp("proposed-failed-config", case, eff, "CBO.ask", ffx),
                 "a failed configuration is proposed although successful ones exist", case, detail)
@@ -668,63 +763,154 @@ def _judge_fit(ck, case, obs, rep, eff, i, failed_before, pending):
     return None
 
 
-def _judge_batch(ck, case, obs, eff):
-    """a batch asked with a one-shot (topk, boltzmann) or q-acquisition (qUCB, qUCBd) strategy after the last fit: every candidate
-    observed, kappa = 0, interpolating forest, objectives aligned with a score.  The candidate SAMPLE contains every candidate many
-    times, so "the k best" is meant as a multiset over the sample."""
+def _faithful(acq, score):
+    """contract of the surrogate as observed on one acquisition call: its predictions order the candidates like their scores (an
+    interpolating forest does, unless the targets are so close that the trees no longer split them)"""
+    val_of, mu_of = {}, {}
+    mus = acq["mu"] if len(acq.get("mu", [])) == len(acq["cands"]) else acq["values"]
+    for c, v, m in zip(acq["cands"], acq["values"], mus):
+        val_of.setdefault(c, v)
+        mu_of.setdefault(c, m)
+    ids = sorted(mu_of, key=lambda c: score[c])
+    # (judged on the surrogate's predicted MEAN: with kappa = 0 the acquisition layer on top of it is code under test)
+    return val_of, all(mu_of[x] > mu_of[y] for x, y in zip(ids, ids[1:]))
+
+
+def _positions(cands, batch):
+    """distinct positions of the candidate sample that the batch members stand for (a configuration that was drawn several times
+    has the same acquisition value at each of its positions); None when the batch is not a sub-multiset of the sample"""
+    where = {}
+    for i, c in enumerate(cands):
+        where.setdefault(c, []).append(i)
+    out = []
+    for c in batch:
+        if not where.get(c):
+            return None
+        out.append(where[c].pop(0))
+    return out
+
+
+def _batch_verdict(case, obs):
+    """-> (counts, mismatches, failure | None, lean requests) for a batch asked after the last fit.  Every candidate observed, kappa = 0,
+    interpolating forest, objectives aligned with a score.  One-shot strategies (topk, boltzmann) select from the candidates and acquisition
+    values cached by the last tell; with `filter_duplicated=False` that sample contains every candidate many times, so "the k best" is meant
+    as a multiset over the sample; with `filter_duplicated=True` the sample that reached the acquisition is what is left of the drawn points
+    after removing repetitions and configurations already asked."""
     strat, k = case["batch"]["strategy"], int(case["batch"]["n"])
     batch = obs["batch"]
     a = obs["acqs"][-1]
     cands, vals = a["cands"], a["values"]
     score = case["scores"]
     told = set(obs["told_a"])
-    ck.count(f"batch:{strat}")
-    fp = f"C05|batch-not-the-best|CBO.ask(n>1)|multi_point_strategy={strat}"
-    if len(batch) != k or not set(batch) <= told or not set(cands) <= told or len(cands) != len(vals):
-        ck.mismatch(case, {"what": "batch ask: unexpected batch size / unobserved candidates", "batch": batch, "n": k})
-        return
-    val_of = {}
-    for c, v in zip(cands, vals):
-        val_of.setdefault(c, v)
-    # contract of the surrogate as observed: its predictions order the candidates like their scores (an interpolating forest does,
-    # unless the targets are so close that the trees no longer split them)
-    ids = sorted(val_of, key=lambda c: score[c])
-    faithful = all(val_of[x] > val_of[y] for x, y in zip(ids, ids[1:]))
-    ck.count("batch:surrogate-contract:" + ("met" if faithful else "not-met"))
-    detail = {"strategy": strat, "batch": batch, "scores_of_batch": [score[c] for c in batch], "best_scores_in_the_sample": sorted((score[c] for c in cands), reverse=True)[:k],
+    fd = bool(case.get("filter_dup"))
+    removed = a.get("n_drawn") is not None and len(cands) < a["n_drawn"]
+    counts = [f"batch:{strat}", f"batch:{strat}:filter_duplicated=" + ("off" if not fd else "on,removed-some" if removed else "on,removed-nothing")]
+    mism, reqs = [], []
+    fp = f"C05|batch-not-the-best|CBO.ask(n>1)|multi_point_strategy={strat}" + (",filter_duplicated=True" if fd else "")
+    if len(cands) != len(vals) or not cands or not set(cands) <= told or not set(batch) <= told:
+        mism.append({"what": "batch ask: unobserved candidates / acquisition not observed", "batch": batch, "n": k})
+        return counts, mism, None, reqs
+    val_of, faithful = _faithful(a, score)
+    counts.append("batch:surrogate-contract:" + ("met" if faithful else "not-met"))
+    finite = all(np.isfinite(v) for v in vals)
+    if not finite:
+        mism.append({"what": "NaN / inf among the acquisition values a batch is selected from", "positions": [i for i, v in enumerate(vals) if not np.isfinite(v)][:5]})
+    detail = {"strategy": strat, "filter_duplicated": fd, "batch": batch, "scores_of_batch": [score[c] for c in batch],
+              "candidates_that_reached_the_acquisition": sorted(set(cands)) if len(set(cands)) < len(cands) else cands,
+              "points_drawn": a.get("n_drawn"), "best_scores_in_the_sample": sorted((score[c] for c in cands), reverse=True)[:k],
               "last_proposal": obs["proposals"][-1]}
+    fail = None
     if strat == "topk":
-        if not all(c in val_of for c in batch) or sorted(val_of[c] for c in batch) != sorted(vals)[:k]:
-            ck.mismatch(case, {"what": "topk batch is not the k smallest acquisition values of the last candidate sample", "batch": batch,
-                               "batch_values": [val_of.get(c) for c in batch], "smallest": sorted(vals)[:k]})
-        if faithful and sorted((score[c] for c in batch), reverse=True) != sorted((score[c] for c in cands), reverse=True)[:k]:
-            ck.fail(fp, "with every candidate observed and kappa=0 a topk batch of k is not made of the k best candidates of the sample", case, detail)
+        kk = min(k, len(cands))     # fewer candidates than asked: all of them
+        pos = _positions(cands, batch)
+        if len(batch) != kk:
+            mism.append({"what": "topk batch: unexpected batch size", "batch": batch, "n": k, "candidates": len(cands)})
+        l2 = pos is not None and len(batch) == kk and sorted(vals[i] for i in pos) == sorted(vals)[:kk]
+        l3 = pos is not None and len(batch) == kk and sorted((score[c] for c in batch), reverse=True) == sorted((score[c] for c in cands), reverse=True)[:kk]
+        if not l2:
+            mism.append({"what": "topk batch is not made of the k smallest acquisition values of the last candidate sample", "batch": batch,
+                         "batch_values": [val_of.get(c) for c in batch], "smallest": sorted(vals)[:kk]})
+        if faithful and not l3:
+            fail = (fp, "with every candidate observed and kappa=0 a topk batch of k is not made of the k best candidates of the sample", detail)
+        if pos is not None and finite:
+            reqs.append(({"op": "nsmallest", "values": [rat(v) for v in vals], "idx": pos, "n": k}, "L2", l2))
+            reqs.append(({"op": "nsmallest", "values": [rat(-score[c]) for c in cands], "idx": pos, "n": k}, "L3", l3))
     elif strat in ("qUCB", "qUCBd"):
-        fresh = obs.get("batch_fresh")
-        if fresh is None or not set(fresh) <= told:
-            ck.mismatch(case, {"what": "qUCB batch: the fresh candidate sample was not observed", "fresh": fresh and fresh[:20]})
-            return
+        fresh, nxt = obs.get("batch_fresh"), obs.get("batch_next_acq")
+        if fresh is None or nxt is None or not set(fresh) <= told or not set(nxt["cands"]) <= told or len(batch) != k:
+            mism.append({"what": "qUCB batch: the fresh candidate sample / the acquisition behind the next point was not observed, or unexpected batch size",
+                         "fresh": fresh and fresh[:20], "batch": batch})
+            return counts, mism, None, reqs
+        _, faithful2 = _faithful(nxt, score)
+        if len(fresh) < k - 1:
+            counts.append("batch:qUCB:fewer-fresh-candidates-than-asked")
+            return counts, mism, None, reqs
         want = sorted((score[c] for c in fresh), reverse=True)[: k - 1]
         detail["best_scores_in_the_fresh_sample"] = want
-        # (the first member is the optimizer's current next point; since "ask again before any tell returns new configurations" it need
-        # not be the configuration the preceding ask(1) returned, so only its score is judged)
-        if faithful and (score[batch[0]] != max(score[c] for c in cands) or sorted((score[c] for c in batch[1:]), reverse=True) != want):
-            ck.fail(fp, "with every candidate observed and kappa=0 a qUCB batch is not made of the best candidates", case, detail)
+        detail["best_score_behind_the_next_point"] = max(score[c] for c in nxt["cands"])
+        # (the first member is the optimizer's current next point: the arg-min of the last acquisition call - of a refreshed copy when
+        # configurations were already asked since the last tell - so it need not be the configuration the preceding ask(1) returned)
+        if faithful and faithful2 and (score[batch[0]] != max(score[c] for c in nxt["cands"])
+                                       or sorted((score[c] for c in batch[1:]), reverse=True) != want):
+            fail = (fp, "with every candidate observed and kappa=0 a qUCB batch is not made of the best candidates", detail)
     else:  # boltzmann: the first member is the best candidate, the draws favour larger objectives
+        if len(batch) != k:
+            mism.append({"what": "boltzmann batch: unexpected batch size", "batch": batch, "n": k})
+            return counts, mism, None, reqs
         rest = [score[c] for c in batch[1:]]
         pop = [score[c] for c in cands]
         mu_u = sum(pop) / len(pop)
         sd_u = (sum((x - mu_u) ** 2 for x in pop) / len(pop)) ** 0.5
-        z = (sum(rest) / len(rest) - mu_u) / (sd_u / len(rest) ** 0.5) if sd_u > 0 else 0.0
-        ck.count("batch:boltzmann:z" + (">=2" if z >= 2 else ">=0" if z >= 0 else "<0"))
+        z = (sum(rest) / len(rest) - mu_u) / (sd_u / len(rest) ** 0.5) if sd_u > 0 and rest else 0.0
+        if len(rest) >= 12:
+            counts.append("batch:boltzmann:z" + (">=2" if z >= 2 else ">=0" if z >= 0 else "<0") + (",filter_duplicated" if fd else ""))
         detail["z_of_the_draws_against_uniform"] = z
-        if not faithful:
-            return
-        if score[batch[0]] != max(score[c] for c in cands):
-            ck.fail(fp, "the first member of a boltzmann batch is not the best candidate", case, detail)
-        elif z < -1.5:
-            ck.fail(f"C05|batch-favours-small-objectives|CBO.ask(n>1)|multi_point_strategy={strat}",
-                    "the boltzmann draws favour candidates with SMALLER objectives than a uniform draw would", case, detail)
+        pos = _positions(cands, batch[:1])
+        l2 = pos is not None and vals[pos[0]] == min(vals)
+        l3 = pos is not None and score[batch[0]] == max(score[c] for c in cands)
+        if not l2:
+            mism.append({"what": "the first member of a boltzmann batch is not a candidate of smallest acquisition value", "batch": batch[:3],
+                         "its_value": val_of.get(batch[0]), "smallest": min(vals)})
+        if pos is not None and finite:
+            reqs.append(({"op": "nsmallest", "values": [rat(v) for v in vals], "idx": pos, "n": 1}, "L2", l2))
+            reqs.append(({"op": "nsmallest", "values": [rat(-score[c]) for c in cands], "idx": pos, "n": 1}, "L3", l3))
+        if faithful:
+            if not l3:
+                fail = (fp, "the first member of a boltzmann batch is not the best candidate", detail)
+            elif z < -1.5 and len(rest) >= 12 and not fd:
+                # (with filter_duplicated the draws avoid repetitions while they can: not a sample of the Boltzmann distribution)
+                fail = (f"C05|batch-favours-small-objectives|CBO.ask(n>1)|multi_point_strategy={strat}",
+                        "the boltzmann draws favour candidates with SMALLER objectives than a uniform draw would", detail)
+    return counts, mism, fail, (reqs if finite else [])
+
+
+def _judge_batch(ck, case, obs, eff, pending):
+    counts, mism, fail, reqs = _batch_verdict(case, obs)
+    for c in counts:
+        ck.count(c)
+    for m in mism:
+        ck.mismatch(case, m)
+    for req, layer, expected in reqs:
+        def verdict(rep, layer=layer, req=req, expected=expected):
+            ck.count(f"isNSmallest:{layer}:" + ("accepted" if rep["check"] else "rejected"))
+            if bool(rep["check"]) != bool(expected):
+                raise HarnessError(f"isNSmallestB ({rep['check']}) and the harness's own evaluation ({expected}) disagree ({layer}): {req}")
+
+        pending.append((req, verdict))
+    if fail is not None and case.get("filter_dup"):
+        # shrink the option set: does the same history fail with filter_duplicated=False as well?
+        c2 = dict(case)
+        c2["filter_dup"] = False
+        o2 = _observe_safe(c2)
+        if not o2.get("harness_error") and not o2.get("error") and o2.get("batch") is not None and o2.get("acqs"):
+            try:
+                fail2 = _batch_verdict(c2, o2)[2]
+            except Exception:
+                fail2 = None
+            if fail2 is not None:
+                case, fail = c2, fail2
+    if fail is not None:
+        ck.fail(fail[0], fail[1], case, fail[2])
 
 
 def _judge_lies(ck, case, obs, eff, pending):
@@ -785,7 +971,7 @@ def _judge(ck, case, obs, reps, eff, pending):
     if case.get("lies"):
         _judge_lies(ck, case, obs, eff, pending)
     if case.get("batch") and obs.get("batch") is not None and obs["acqs"]:
-        _judge_batch(ck, case, obs, eff)
+        _judge_batch(ck, case, obs, eff, pending)
     out = None
     failed_before = set()
     for i in range(nfit):
@@ -816,13 +1002,15 @@ def _monotone_case(rng, t):
             return {"mono": True, "climb": True, "surrogate": sur, "scaler": "auto" if sur == "GP" and rng.random() < 0.5 else "identity",
                     "strategy": strat, "nobj": rng.choice([2, 2, 3]), "K": K,
                     "sign": ["pos", "neg", "mixed"][(t // 2) % 3], "seed": rng.randrange(1 << 20), "init": init,
-                    "offset_mult": rng.choice([0, 0, 1000, -1000]), "n_evals": 8 + (20 if sur == "GP" else 24)}
+                    "offset_mult": rng.choice([0, 0, 1000, -1000]), "n_evals": 8 + (20 if sur == "GP" else 24),
+                    # (CBO's default: no configuration is proposed twice - on 101 / 201 points the search can still sit next to the maximiser)
+                    "filter_dup": rng.random() < 0.5}
         # the same partially observed problem with the objective f and with f + c, c = +-1000 x spread (single objective: no utopia
         # subtraction, identity scaler: the surrogate sees the raw offset); both runs must keep climbing
         sur = "GP" if r == 6 else rng.choice(["ET", "RF"])
         return {"mono": True, "climb": True, "surrogate": sur, "scaler": "auto" if sur == "GP" and rng.random() < 0.5 else "identity",
                 "strategy": "Chebyshev", "nobj": 0 if rng.random() < 0.7 else 2, "K": K, "sign": "mixed", "seed": rng.randrange(1 << 20), "init": init,
-                "offset_mult": 0, "pair_offset_mult": rng.choice([1000, -1000]), "n_evals": 8 + (20 if sur == "GP" else 24)}
+                "offset_mult": 0, "pair_offset_mult": rng.choice([1000, -1000]), "n_evals": 8 + (20 if sur == "GP" else 24), "filter_dup": rng.random() < 0.5}
     # random initial points over 0..19, whole matrix; the other acquisition functions (none of them is exploitation-only:
     # EI / PI weigh the improvement by the predictive std, MES is information-based, gp_hedge mixes EI, LCB, PI) and
     # multi-worker searches with the batch strategies
@@ -872,7 +1060,7 @@ def _observe_mono(case):
         search = CBO(problem, ev, random_state=case["seed"], log_dir=tmp, verbose=0, surrogate_model=case["surrogate"],
                      surrogate_model_kwargs={"n_estimators": 25} if case["surrogate"] != "GP" else None,
                      acq_func=case.get("acq", "UCB"), acq_optimizer="sampling", n_initial_points=8, n_points=300 if case.get("climb") else 200,
-                     filter_duplicated=False, objective_scaler=case["scaler"], moo_scalarization_strategy=case["strategy"],
+                     filter_duplicated=bool(case.get("filter_dup", False)), objective_scaler=case["scaler"], moo_scalarization_strategy=case["strategy"],
                      moo_scalarization_weight=[1.0 / max(nobj, 1)] * max(nobj, 1) if nobj else None, **extra)
         res = search.search(max_evals=case["n_evals"])
         out["a"] = [int(v) for v in res.sort_values("job_id")["p:a"].tolist()] if "job_id" in res.columns else [int(v) for v in res["p:a"].tolist()]
@@ -892,7 +1080,7 @@ def _observe_mono(case):
 
 def _judge_mono(ck, case, obs, eff):
     kind = "climb" if case.get("climb") else "mono"
-    ck.count(f"{kind}:{case['surrogate']}/{eff}/{case['strategy'] if case['nobj'] else 'single'}/{case['sign']}")
+    ck.count(f"{kind}:{case['surrogate']}/{eff}/{case['strategy'] if case['nobj'] else 'single'}/{case['sign']}" + ("/filter_duplicated" if case.get("filter_dup") else ""))
     if obs["error"]:
         ck.fail(f"C05|raises|CBO.search|{obs['error'].split(':')[0]}", "search raised on a monotone problem", case, obs)
         return
@@ -957,23 +1145,157 @@ def _judge_mono(ck, case, obs, eff):
 _CONT = {}
 
 
+XLOG = (1e-4, 1e-1)     # bounds of the log-uniform variant of the hyperparameter x
+
+
+def _u_of_x(x, xprior):
+    """position of x on a 0..10 scale in the coordinate its prior is uniform in (x itself, or log10 x)"""
+    import math
+
+    if xprior == "log-uniform":
+        return 10.0 * (math.log10(x) - math.log10(XLOG[0])) / (math.log10(XLOG[1]) - math.log10(XLOG[0]))
+    return float(x)
+
+
+def _u_of_level(x, levels, ranks):
+    """position on a 0..10 scale of a value of an ordinal / categorical hyperparameter: by its RANK in the order the objective follows
+    (the numeric order for an ordinal), wherever the value stands in the declared list"""
+    for v, r in zip(levels, ranks):
+        if v == x:
+            return 10.0 * r / (len(levels) - 1)
+    raise HarnessError(f"value {x!r} is not one of the declared levels {levels}")
+
+
 async def _run_cont(job):
-    return _CONT["scale"] * (float(job.parameters["x"]) + _CONT["offset"])
+    if _CONT.get("levels"):
+        u = _u_of_level(job.parameters["x"], _CONT["levels"], _CONT["ranks"])
+    else:
+        u = _u_of_x(float(job.parameters["x"]), _CONT["xprior"])
+    return _CONT["scale"] * (_CONT["sign"] * u + _CONT["offset"])
+
+
+# (update_prior_quantile, n_initial_points).  An aggressive quantile on a handful of observations (0.5 on 8 points) is left out: the prior then
+# collapses on 4 points and the search climbs slowly out of that region (the "overfitting" the code's own TODO mentions; measured medians
+# down to 8.6 on correct code) - a matter of speed, not of direction
+PRIOR_SETTINGS = [(0.1, 12), (0.1, 20), (0.25, 40), (0.5, 20), (0.25, 10)]
 
 
 def _cont_case(rng, t):
-    """f(x) = scale * (x + offset) on [0, 10], exploitation settings of every acquisition that has one (kappa = 0 / xi = 0, constant
-    scheduler), forests; on a continuous domain the predictive std is > 0 between the observations, so EI / PI are informative"""
-    r = t % 6
-    sur, acq = [("RF", "PI"), ("RF", "PId"), ("RF", "EI"), ("RF", "EId"), ("ET", rng.choice(["PI", "EI", "PId", "EId"])),
-                (rng.choice(["ET", "RF"]), rng.choice(["UCB", "UCBd"]))][r]
-    return {"cont": True, "surrogate": sur, "acq": acq,
+    """f(x) = scale * (+-u(x) + offset), u = x on [0, 10] or - hyperparameter with a log-uniform prior on [1e-4, 1e-1] - the position of log10 x
+    on a 0..10 scale (maximiser at u = 10 or at u = 0), exploitation settings of every acquisition that has one
+    (kappa = 0 / xi = 0, constant scheduler), forests; on a continuous domain the predictive std is > 0 between the observations, so
+    EI / PI are informative.  Rows 6-9: the same with `update_prior=True` — after every fit the sampling prior of each real hyperparameter
+    is re-fitted on a quantile of the observations, i.e. WHERE THE CANDIDATES COME FROM depends on the direction too — crossed with the
+    quantile, the number of initial points (how many observations the selected fraction holds), extra irrelevant hyperparameters (real,
+    integer) and the surrogate."""
+    r = t % 16
+    if r >= 14:
+        # the KIND of the hyperparameter the objective depends on: a numerical ordinal whose values are declared in ascending, descending or arbitrary
+        # order (legal: the list is only the declared order), or a categorical with string choices in any order; always with a real hyperparameter
+        # next to it (bounds handling differs for purely categorical spaces, and the real one keeps the configurations at the best level distinct)
+        # (row 14: increasing objectives, row 15: decreasing ones; over the rows every kind meets both directions, the quick tier runs a descending
+        # ordinal with an increasing objective and a shuffled one with a decreasing objective)
+        xkind = ["categorical", "ordinal-asc", "ordinal-desc", "ordinal-shuffled"][(t // 16 + r) % 4]
+        vals = list(rng.choice([[16, 32, 64, 128, 256, 512], [0.001, 0.01, 0.1, 1.0, 10.0], [1, 2, 3, 5, 8, 13, 21]]))
+        if xkind == "categorical":
+            levels = [f"c{i}" for i in range(len(vals))]
+            rng.shuffle(levels)
+            ranks = list(range(len(levels)))
+            rng.shuffle(ranks)
+        else:
+            levels = sorted(vals, reverse=(xkind == "ordinal-desc"))
+            if xkind == "ordinal-shuffled":
+                while levels in (sorted(vals), sorted(vals, reverse=True)):
+                    rng.shuffle(levels)
+            ranks = [sorted(vals).index(v) for v in levels]
+        return {"cont": True, "surrogate": rng.choice(["ET", "RF"]), "acq": rng.choice(["UCB", "UCBd"]), "xkind": xkind, "levels": levels, "ranks": ranks,
+                "sign": 1.0 if r == 14 else -1.0, "extra_dims": rng.choice([["real"], ["real", "int"]]),
+                "offset": rng.choice([-100.0, 50.0, 0.0, 1000.0, -5.0]), "scale": rng.choice([1.0, 0.01, 100.0]), "seed": rng.randrange(1 << 20),
+                # (an unordered categorical: pure exploitation never tries a choice it has not seen, so every choice must occur in the initial design for
+                # "the best choice" to be what the search can know - asserted only then)
+                "n_evals": 32 if xkind != "categorical" else 3 * len(levels) + 24, "n_initial": 8 if xkind != "categorical" else 3 * len(levels)}
+    if r >= 10:
+        # the optimisers of the acquisition function other than "sampling": L-BFGS from the best sampled candidates (what "auto" selects for
+        # GP), genetic algorithms seeded with the best sampled candidates; `acq_optimizer_freq`: every how many fits they are used
+        # (forests with L-BFGS are left out: on a piecewise constant surrogate the numerical gradient is 0 and the result is the starting
+        # point - measured medians 9.90-9.96, too close to the threshold to assert)
+        sur, opt = [("GP", "lbfgs"), (rng.choice(["ET", "RF"]), "ga"), (rng.choice(["ET", "RF"]), "mixedga"),
+                    rng.choice([("GP", "ga"), ("GP", "lbfgs"), ("GP", "mixedga")])][r - 10]
+        ga = opt != "lbfgs"
+        return {"cont": True, "surrogate": sur, "acq": rng.choice(["UCB", "UCBd"]) if sur != "GP" else "UCB", "acq_optimizer": opt,
+                "acq_optimizer_freq": rng.choice([1, 2]), "sign": rng.choice([1.0, -1.0]),
+                "extra_dims": rng.choice([[], ["real"], ["int"]]) if opt != "ga" else rng.choice([[], ["real"]]),
+                "offset": rng.choice([-100.0, 50.0, 0.0, 1000.0, -5.0]), "scale": rng.choice([1.0, 0.01, 100.0]), "seed": rng.randrange(1 << 20),
+                "n_evals": 22 if ga else 32, "n_initial": 8, "late": 10 if ga else 20, "xprior": rng.choice(["uniform", "uniform", "log-uniform"]),
+                # with filter_duplicated (default) a point the optimiser returns twice is replaced by the best sampled candidate: that guard would
+                # hide an optimiser that keeps walking to the same wrong corner
+                "filter_dup": rng.random() < 0.5}
+    if r < 6:
+        sur, acq = [("RF", "PI"), ("RF", "PId"), ("RF", "EI"), ("RF", "EId"), ("ET", rng.choice(["PI", "EI", "PId", "EId"])),
+                    (rng.choice(["ET", "RF"]), rng.choice(["UCB", "UCBd"]))][r]
+        return {"cont": True, "surrogate": sur, "acq": acq,
+                "offset": rng.choice([-100.0, 50.0, 0.0, 1000.0, -5.0]), "scale": rng.choice([1.0, 0.01, 100.0]), "seed": rng.randrange(1 << 20),
+                "n_evals": 40, "n_initial": 8}
+    sur = ["ET", "RF", "ET", rng.choice(["GP", "RF", "ET"])][r - 6]
+    pq, n_init = PRIOR_SETTINGS[(t // 16 + r) % len(PRIOR_SETTINGS)]
+    return {"cont": True, "surrogate": sur, "acq": rng.choice(["UCB", "UCBd"]) if sur != "GP" else "UCB", "update_prior": True,
+            "prior_quantile": pq, "sign": rng.choice([1.0, -1.0]),
+            "extra_dims": [[], ["real"], ["real", "int"], ["int"]][(t // 32 + r) % 4],
             "offset": rng.choice([-100.0, 50.0, 0.0, 1000.0, -5.0]), "scale": rng.choice([1.0, 0.01, 100.0]), "seed": rng.randrange(1 << 20),
-            "n_evals": 40, "n_initial": 8}
+            "n_evals": n_init + (24 if sur == "GP" else 30), "n_initial": n_init, "xprior": ["uniform", "log-uniform"][(t // 16 + r) % 2]}
 
 
 def _const_scheduler(i, eta_0, **kwargs):
     return eta_0
+
+
+class _PriorSpy:
+    """environment observation for `update_prior=True`: the fitted targets and the quantile handed to `Space.update_prior` after each
+    surrogate fit, and the data set each kernel-density prior is re-fitted on (`scipy.stats.gaussian_kde` as imported by the space module)"""
+
+    def __init__(self):
+        import deephyper.skopt.space.space as sp
+
+        self.sp = sp
+        self.calls, self.errors = [], []
+        self._cur = None
+
+    def __enter__(self):
+        sp = self.sp
+        self._up, self._kde = getattr(sp.Space, "update_prior", None), getattr(sp, "gaussian_kde", None)
+        if self._up is None or self._kde is None:
+            self.errors.append("Space.update_prior / space.gaussian_kde not found: the prior update is not observable")
+            return self
+
+        def up_spy(this, X, y, *a, **k):
+            rec = None
+            try:
+                q = k.get("q", a[0] if a else 0.9)
+                cols = [[float(x[i]) for x in X] if type(dim).__name__ == "Real" else None for i, dim in enumerate(this.dimensions)]
+                rec = {"y": [float(v) for v in y], "q": float(q), "cols": cols, "kde": []}
+                self.calls.append(rec)
+            except Exception as e:
+                self.errors.append("update_prior spy: " + repr(e))
+            self._cur = rec
+            try:
+                return self._up(this, X, y, *a, **k)
+            finally:
+                self._cur = None
+
+        def kde_spy(dataset, *a, **k):
+            try:
+                if self._cur is not None:
+                    self._cur["kde"].append([float(v) for v in np.asarray(dataset, dtype=float).reshape(-1)])
+            except Exception as e:
+                self.errors.append("gaussian_kde spy: " + repr(e))
+            return self._kde(dataset, *a, **k)
+
+        sp.Space.update_prior, sp.gaussian_kde = up_spy, kde_spy
+        return self
+
+    def __exit__(self, *a):
+        if self._up is not None and self._kde is not None:
+            self.sp.Space.update_prior, self.sp.gaussian_kde = self._up, self._kde
 
 
 def _observe_cont(case):
@@ -983,18 +1305,42 @@ def _observe_cont(case):
     from deephyper.evaluator import Evaluator
     from deephyper.hpo import CBO, HpProblem
 
-    _CONT.update({"scale": case["scale"], "offset": case["offset"]})
+    xprior = case.get("xprior", "uniform")
+    levels = case.get("levels")
+    _CONT.update({"scale": case["scale"], "offset": case["offset"], "sign": case.get("sign", 1.0), "xprior": xprior, "levels": levels, "ranks": case.get("ranks")})
     problem = HpProblem()
-    problem.add_hyperparameter((0.0, 10.0), "x")
+    if levels:
+        problem.add_hyperparameter(list(levels), "x")
+    else:
+        problem.add_hyperparameter((XLOG[0], XLOG[1], "log-uniform") if xprior == "log-uniform" else (0.0, 10.0), "x")
+    for n, kind in enumerate(case.get("extra_dims", [])):
+        problem.add_hyperparameter((0.0, 1.0) if kind == "real" else (0, 5), f"e{n}")
     tmp = tempfile.mkdtemp(prefix="c05c_")
     out = {"error": None}
     try:
-        with _Quiet():
+        with _Quiet(), _PriorSpy() as spy:
             ev = Evaluator.create(_run_cont, method="serial")
+            extra = {}
+            if case.get("update_prior"):
+                extra = {"update_prior": True, "update_prior_quantile": float(case["prior_quantile"])}
+            if case.get("acq_optimizer"):
+                extra.update({"acq_optimizer": case["acq_optimizer"], "acq_optimizer_freq": int(case.get("acq_optimizer_freq", 1)),
+                              "filter_duplicated": bool(case.get("filter_dup", True))})
+            if (extra or levels) and case["surrogate"] != "GP":
+                extra["surrogate_model_kwargs"] = {"n_estimators": 25}
             search = CBO(problem, ev, random_state=case["seed"], log_dir=tmp, verbose=0, surrogate_model=case["surrogate"],
-                         acq_func=case["acq"], kappa=0.0, xi=0.0, scheduler=_const_scheduler, n_points=500, n_initial_points=case["n_initial"])
+                         acq_func=case["acq"], kappa=0.0, xi=0.0, scheduler=_const_scheduler, n_points=300 if extra else 500,
+                         n_initial_points=case["n_initial"], **extra)
             res = search.search(max_evals=case["n_evals"])
-            out["x"] = [float(v) for v in res.sort_values("job_id")["p:x"].tolist()]
+            res = res.sort_values("job_id")
+            if levels:
+                out["x"] = [_u_of_level(v, levels, case["ranks"]) for v in res["p:x"].tolist()]
+                out["x_values"] = [v if isinstance(v, str) else float(v) for v in res["p:x"].tolist()]
+            else:
+                out["x"] = [_u_of_x(float(v), xprior) for v in res["p:x"].tolist()]     # (on the 0..10 scale)
+            if case.get("update_prior"):
+                out["prior_calls"] = spy.calls
+                out["spy_error"] = spy.errors[:3]
             try:
                 ev.close()
             except Exception:
@@ -1009,26 +1355,125 @@ def _observe_cont(case):
     return out
 
 
-def _judge_cont(ck, case, obs):
-    ck.count(f"cont:{case['surrogate']}/{case['acq']}")
+def _judge_prior(ck, case, obs, d):
+    """L2 for `update_prior=True`: at every surrogate fit the points each kernel-density prior was re-fitted on vs the model's
+    `priorMask (cboPriorQuantile p) targets` (positions whose target is within rounding of the quantile are not compared: numpy
+    interpolates in doubles), and the direction of the OBSERVED selection by the verified checker `checkPriorSel`"""
+    calls = obs.get("prior_calls") or []
+    if obs.get("spy_error"):
+        ck.mismatch(case, {"what": "the prior update could not be observed", "errors": obs["spy_error"]})
+    p = float(case["prior_quantile"])
+    if not calls:
+        ck.mismatch(case, {"what": "update_prior=True but Space.update_prior was never called after a surrogate fit"})
+        return None
+    reqs, meta = [], []
+    for n, c in enumerate(calls):
+        y = c["y"]
+        if not _close(c["q"], 1.0 - p, 1.0, 4 * EPS):
+            ck.mismatch(case, {"what": "quantile handed to Space.update_prior is not 1 - update_prior_quantile", "q": c["q"], "update_prior_quantile": p})
+        real_cols = [col for col in c["cols"] if col is not None]
+        if len(c["kde"]) != len(real_cols) or not real_cols:
+            ck.mismatch(case, {"what": "number of kernel-density re-fits differs from the number of real hyperparameters", "fit": n,
+                               "refits": len(c["kde"]), "real_hyperparameters": len(real_cols)})
+            continue
+        for col, data in zip(real_cols, c["kde"]):
+            left = {}
+            for v in data:
+                left[v] = left.get(v, 0) + 1
+            sel = []
+            for v in col:
+                if left.get(v, 0) > 0:
+                    left[v] -= 1
+                    sel.append(True)
+                else:
+                    sel.append(False)
+            if any(left.values()) or len(col) != len(y):
+                ck.mismatch(case, {"what": "the data of a kernel-density re-fit are not a subset of the told points", "fit": n})
+                continue
+            # the exact double q the implementation used (q = 1 - p is compared above)
+            reqs.append({"op": "prior", "y": [rat(v) for v in y], "p": rat(1.0 - c["q"]) if _close(c["q"], 1.0 - p, 1.0, 4 * EPS) else rat(p), "sel": sel})
+            meta.append((n, y, sel))
+    wrong = None
+    for rep, (n, y, sel) in zip(d.ask_all(reqs), meta):
+        ck.count("prior-selection:" + ("direction-ok" if rep["sel_ok"] else "direction-wrong"))
+        if rep["mask"] is None or rep["quantile"] is None:
+            ck.mismatch(case, {"what": "the model has no quantile for this history", "fit": n})
+            continue
+        t = float(unrat(rep["quantile"]))
+        tol = 1e-9 * max(max(y) - min(y), 1e-300)
+        diff = [j for j, (a, b) in enumerate(zip(sel, rep["mask"])) if bool(a) != bool(b) and abs(y[j] - t) > tol]
+        ck.count("prior-selection:" + ("=model" if not diff else "differs-from-model"))
+        ck.count("prior-selection:size=" + ("1" if sum(sel) == 1 else "all" if all(sel) else ">=2"))
+        if (diff or not rep["sel_ok"]) and wrong is None:
+            wrong = {"fit": n, "observations": len(y), "selected_by_the_implementation": sum(sel), "selected_by_the_model": sum(1 for b in rep["mask"] if b),
+                     "quantile_of_the_targets": t, "targets_selected": sorted(v for v, b in zip(y, sel) if b)[:6],
+                     "targets_left_out": sorted(v for v, b in zip(y, sel) if not b)[:6],
+                     "checkPriorSel (nothing left out is as good as a selected observation)": bool(rep["sel_ok"])}
+            ck.mismatch(case, dict(wrong, what="update_prior: the observations the sampling prior is re-fitted on differ from the model's "
+                                                "`targets <= quantile(targets, 1 - update_prior_quantile)`"))
+    return wrong
+
+
+def _judge_cont(ck, case, obs, d=None):
+    up = bool(case.get("update_prior"))
+    opt = case.get("acq_optimizer")
+    xp = ",x=log-uniform" if case.get("xprior") == "log-uniform" else ""
+    xkind = case.get("xkind")
+    ck.count(f"cont:{case['surrogate']}/{case['acq']}" + ("/update_prior" if up else "") + (f"/acq_optimizer={opt},freq={case.get('acq_optimizer_freq')},filter_duplicated={case.get('filter_dup', True)}" if opt else ""))
     if obs["error"]:
-        ck.fail(f"C05|raises|CBO.search|{obs['error'].split(':')[0]},acq_func={case['acq']}", "search raised on a continuous monotone problem", case, obs)
+        # (the options a raise hangs on: the non-default ones of the case)
+        ck.fail(f"C05|raises|CBO.search|{obs['error'].split(':')[0]}," + (f"update_prior=True,surrogate={case['surrogate']}" if up else
+                                                                           f"acq_optimizer={opt},surrogate={case['surrogate']}" if opt else f"acq_func={case['acq']}") + xp,
+                "search raised on a continuous monotone problem", case, obs)
         return
-    late = sorted(obs["x"][-20:])
-    med = (late[9] + late[10]) / 2.0
-    share = sum(1 for v in late if v > CONT_HIGH) / len(late)
-    ck.count(f"cont:{case['acq']}:" + ("median>9.8" if med > 9.8 else "median>8" if med > 8 else "median<=8"))
+    # distance of the late proposals to the maximiser (x = 10 for an increasing objective, x = 0 for a decreasing one)
+    top = 10.0 if case.get("sign", 1.0) > 0 else 0.0
+    nlate = int(case.get("late", 20))
+    late = sorted(10.0 - abs(v - top) for v in obs["x"][-nlate:])
+    med = (late[nlate // 2 - 1] + late[nlate // 2]) / 2.0
+    # the rows with update_prior / another optimiser of the acquisition run on up to 3 hyperparameters with 25 trees and 300 candidates:
+    # calibrated on the repaired tree over 480 runs - median >= 9.69 (all but one >= 9.85), every late proposal above 8.8
+    new_rows = bool(case.get("update_prior") or case.get("acq_optimizer") or xkind)
+    if xkind:
+        ck.count(f"cont:x={xkind},levels={len(case['levels'])},surrogate={case['surrogate']}")
+    high, med_min = (CONT_HIGH_NEW, CONT_MEDIAN_NEW) if new_rows else (CONT_HIGH, CONT_MEDIAN)
+    share = sum(1 for v in late if v > high) / len(late)
+    ck.count(f"cont:{case['acq']}{'/update_prior' if up else ''}:" + ("median>9.8" if med > 9.8 else "median>8" if med > 8 else "median<=8"))
+    wrong = None
+    if up:
+        ck.count(f"cont:update_prior:q={case['prior_quantile']},n_initial={case['n_initial']},extra={'+'.join(case.get('extra_dims', [])) or 'none'},x={case.get('xprior', 'uniform')}")
+        if d is not None:
+            wrong = _judge_prior(ck, case, obs, d)
+    if xkind == "categorical" and set(obs.get("x_values", [])[: case["n_initial"]]) != set(case["levels"]):
+        ck.count("cont:x=categorical:a-choice-never-tried-in-the-initial-design:not-asserted")
+        return
     if case["surrogate"] == "ET" and case["acq"] not in ("UCB", "UCBd"):
         # calibrated on main: with the fully grown ET forest the improvement-based acquisitions end anywhere between 7.5 and 10
         # (EI 8.1-10, PI 8.9-10, EId / PId 7.5-9.8): measured, not asserted.  RF: median >= 9.96 and >= 90 % above 9 in 150 runs.
         return
-    if med <= CONT_MEDIAN or share < CONT_SHARE:
-        ck.fail(f"C05|late-proposals-not-at-the-maximiser|CBO.search|acq_func={case['acq']},surrogate={case['surrogate']}",
-                "on a continuous monotone problem the late proposals of an exploitation-only setting do not concentrate at the maximiser", case,
-                {"median_of_last_20": med, "share_above_%g" % CONT_HIGH: share, "proposals": [round(v, 3) for v in obs["x"]]})
+    if med <= med_min or share < CONT_SHARE:
+        detail = {f"median_closeness_of_last_{nlate} (10 = at the maximiser)": med, "share_above_%g" % high: share, "maximiser": top,
+                  "proposals (x, or the position of log10 x, on a 0..10 scale)": [round(v, 3) for v in obs["x"]]}
+        if up:
+            detail["prior_update"] = wrong or "selection as in the model"
+            ck.fail(f"C05|late-proposals-not-at-the-maximiser|CBO.search|update_prior=True,surrogate={case['surrogate']}" + xp,
+                    "with update_prior=True the late proposals of an exploitation-only search on a continuous monotone problem do not concentrate at "
+                    "the maximiser", case, detail)
+        elif xkind:
+            detail.update({"declared_values_of_x": case["levels"], "rank_of_each_value_in_the_objective": case["ranks"], "proposed_values_of_x": obs.get("x_values")})
+            ck.fail(f"C05|late-proposals-not-at-the-maximiser|CBO.search|x={xkind},surrogate={case['surrogate']}",
+                    f"the objective is monotone in an {xkind.split('-')[0]} hyperparameter (declared order: {xkind}) next to a real one: the late proposals of an "
+                    "exploitation-only search do not use its best value", case, detail)
+        elif opt:
+            ck.fail(f"C05|late-proposals-not-at-the-maximiser|CBO.search|acq_optimizer={opt},surrogate={case['surrogate']}" + xp,
+                    f"with acq_optimizer={opt} the late proposals of an exploitation-only search on a continuous monotone problem do not concentrate "
+                    "at the maximiser", case, detail)
+        else:
+            ck.fail(f"C05|late-proposals-not-at-the-maximiser|CBO.search|acq_func={case['acq']},surrogate={case['surrogate']}",
+                    "on a continuous monotone problem the late proposals of an exploitation-only setting do not concentrate at the maximiser", case, detail)
 
 
-CONT_MEDIAN, CONT_HIGH, CONT_SHARE = 9.8, 9.0, 0.7
+CONT_MEDIAN, CONT_HIGH, CONT_SHARE, CONT_MEDIAN_NEW, CONT_HIGH_NEW = 9.8, 9.0, 0.7, 9.3, 8.5
 
 
 # --------------------------------------------------------------------------- name maps / tell stream
@@ -1156,7 +1601,7 @@ def _map(fn, items, workers):
         return [fn(x) for x in items]
     ctx = multiprocessing.get_context("fork")
     with cf.ProcessPoolExecutor(max_workers=workers, mp_context=ctx) as ex:
-        return list(ex.map(fn, items, chunksize=4))
+        return list(ex.map(fn, items, chunksize=4 if len(items) > 8 * workers else 1))
 
 
 def _observe_jobs(cases, workers):
@@ -1203,8 +1648,12 @@ def _judge_jobs(ck, d, names, jobs, obs_all):
             continue
         spans.append((len(reqs), nfit))
         for i in range(nfit):
-            reqs.append(_request(case, obs, eff, i))
-    reps = d.ask_all(reqs)
+            if _finite_fit(obs, i):
+                reqs.append(_request(case, obs, eff, i))
+            else:
+                reqs.append(None)    # NaN / inf in what the implementation computed: nothing the rational model can be asked about
+    answers = iter(d.ask_all([q for q in reqs if q is not None]))
+    reps = [next(answers) if q is not None else {"nonfinite": True} for q in reqs]
     results = {}
     pending = []
     for n, ((case, var), obs) in enumerate(zip(jobs, obs_all)):
@@ -1227,7 +1676,11 @@ def _judge_jobs(ck, d, names, jobs, obs_all):
             while k < len(jobs) and jobs[k][1] is not None:
                 which = jobs[k][1]
                 r = results.get(k)
-                if base and r and base[0] is not None and r[0] is not None:
+                if base and r and base[0] is not None and r[0] is not None and base[0][2] != r[0][2]:
+                    # (with filter_duplicated the candidates left at the last fit depend on what was proposed - on unobserved candidates - at the
+                    # earlier fits; the clause compares like with like)
+                    ck.count(f"variant:{which}:different-candidates-left")
+                elif base and r and base[0] is not None and r[0] is not None:
                     ck.count(f"variant:{which}")
                     if base[0][0] != r[0][0]:
                         vcase = jobs[k][0]
@@ -1252,7 +1705,8 @@ def run(ck):
     import time
 
     t0 = time.time()
-    ck.rule = ("CBO on a 1-D integer space 0..K-1 (K in 4..10), kappa=0, sampling acquisition optimiser, filter_duplicated=False; histories with one fit "
+    ck.rule = ("CBO on a 1-D integer space 0..K-1 (K in 4..10), kappa=0, sampling acquisition optimiser, filter_duplicated in {False, True} (the candidates that "
+               "reach the acquisition are observed after filtering); histories with one fit "
                "(every candidate an initial point), several fits (initial subset, then 1-3 tell rounds adding better observations) or failed evaluations "
                "('F' for a subset incl. the would-be best, filter_failures min/mean); at the last fit every candidate is observed; matrix surrogate {ET,RF,GP} "
                "(forests mostly configured to interpolate) x objective_scaler {auto,identity,minmax,quantile-uniform} x strategy {Linear,Chebyshev,AugChebyshev,PBI,"
@@ -1262,6 +1716,10 @@ def run(ck):
                "(random initial points on 0..19; 8 fixed initial points far below the maximiser on 0..100/200 with the identity scaler x distance-based strategies x "
                "{ET,GP}; acq_func MES / gp_hedge asserted, EI / PI exercised), routes search() / fit_surrogate(DataFrame), moo_lower_bounds on 20 % of the "
                "multi-objective cases, MoScalarFunction instances and uniform weights, constant-liar batches ask(3) with cl_max/cl_mean/cl_min after the last fit, "
+               "batches ask(n>1) with topk / boltzmann / qUCB / qUCBd stratified over filter_duplicated x history shape {fit_surrogate, tell rounds, single fit}, "
+               "continuous monotone problems (x uniform on (0,10) or log-uniform on (1e-4,1e-1), increasing / decreasing, 0-2 extra hyperparameters, exploitation "
+               "settings) x {acq_func PI/EI/UCB(d) with forests; update_prior=True x quantile {0.1,0.25,0.5} x n_initial {10..40} x {ET,RF,GP}; acq_optimizer "
+               "{lbfgs,ga,mixedga} x acq_optimizer_freq}, "
                "the documented objective forms through CBO._tell, and the name maps. distinct by canonical case; non-trivial = multi-objective, or "
                "objectives not all negative, or a multi-fit / failure history")
     ck.assumptions = [
@@ -1270,7 +1728,11 @@ def run(ck):
         "the ranking oracle on the fitted targets does not depend on the surrogate at all",
         "quantile-uniform (sklearn QuantileTransformer) is not computed by the model: the scaled history comes from the repo's cook_objective_scaler and is "
         "checked order-preserving into [0,1] (Lean orderPreservingB)",
-        "random weights, sampled candidates and the utopia point are observed through spies on Space.rvs / clone / _gaussian_acquisition / MoScalarFunction.scalarize",
+        "random weights, sampled candidates and the utopia point are observed through spies on Space.rvs / Space.transform / clone / _gaussian_acquisition / MoScalarFunction.scalarize",
+        "update_prior: the kernel density estimate and its samples are environment; which told points each re-fit uses is observed through spies on Space.update_prior and the "
+        "space module's gaussian_kde and compared with priorMask, except within 1e-9 x range of the quantile (numpy interpolates in doubles)",
+        "np.argsort's order among equal acquisition values is environment (contract ArgsortOK): a topk batch is judged as a selection of positions, found by matching the returned "
+        "configurations to distinct positions of the cached candidate list",
         "floats: targets compared within 1e-9 + 64*eps*(|offset|/range) relative to the largest target; the strict ranking of targets is asserted only where that noise "
         "is below 1 % of the squared smallest relative score gap; Quadratic's SVD-based Q and the model's closed form agree within that tolerance",
     ]
@@ -1282,10 +1744,27 @@ def run(ck):
     cases = [c for c in corpus if not c.get("mono") and not c.get("cont")]
     cases += [_gen_case(ck.rng, t) for t in range(nbase)]
     monos = [c for c in corpus if c.get("mono")] + [_monotone_case(ck.rng, t) for t in range(nmono)]
-    conts = [c for c in corpus if c.get("cont")] + [_cont_case(ck.rng, t) for t in range(ck.pick(6, 96))]
+    conts = [c for c in corpus if c.get("cont")] + [_cont_case(ck.rng, t) for t in range(ck.pick(16, 176))]
     # run the real searches before the Lean driver is started (fork-safety), then judge
-    mono_obs = _map(_observe_mono_safe, monos, workers)
-    cont_obs = _map(_observe_cont, conts, workers)
+    # (one pool for both kinds of whole-search runs; the quick tier keeps the candidate-set histories in-process - that is what the line
+    # coverage probe sees - and gives these long runs a few workers)
+    items = [("mono", c) for c in monos] + [("cont", c) for c in conts]
+
+    def cost(it):      # longest first: better packing of the pool
+        c = it[1]
+        return (c.get("n_evals", 30) * (4 if c.get("surrogate") == "GP" else 1) * (2 if c.get("pair_offset_mult") is not None else 1)
+                * (3 if c.get("acq_optimizer") in ("ga", "mixedga") else 1) * (2 if c.get("acq") in ("MES", "PI", "PId", "EI", "EId") else 1))
+
+    order = sorted(range(len(items)), key=lambda i: -cost(items[i]))
+    res = _map(_observe_run, [items[i] for i in order], workers if ck.thorough else min(6, os.cpu_count() or 1))
+    both = [None] * len(items)
+    for i, r in zip(order, res):
+        both[i] = r
+    mono_obs, cont_obs = both[: len(monos)], both[len(monos):]
+    slow = sorted(((float(o.get("wall_s") or 0), "/".join(str(x) for x in (c.get("surrogate"), c.get("acq_optimizer") or c.get("acq"),
+                                                                           "update_prior" if c.get("update_prior") else "", c.get("n_evals")) if x))
+                   for c, o in zip(monos + conts, both)), key=lambda p: -p[0])[:5]
+    ck.extra_cov["slowest_whole_search_runs"] = [[t, k] for t, k in slow]
     t0 = _t(ck, "monotone_runs", t0)
     jobs, obs_all = _observe_jobs(cases, workers)
     t0 = _t(ck, "candidate_runs", t0)
@@ -1300,7 +1779,7 @@ def run(ck):
             _judge_mono(ck, case, obs, _eff_scaler(case, names))
         for case, obs in zip(conts, cont_obs):
             ck.case(case, nontrivial=True)
-            _judge_cont(ck, case, obs)
+            _judge_cont(ck, case, obs, d)
 
 
 def replay(ck, case):
@@ -1314,7 +1793,7 @@ def replay(ck, case):
         elif case.get("cont"):
             obs = _observe_cont(case)
             ck.case(case)
-            _judge_cont(ck, case, obs)
+            _judge_cont(ck, case, obs, d)
             print("replay:", {"proposals": [round(v, 3) for v in obs.get("x", [])], "error": obs.get("error")})
         elif case.get("tell"):
             _tell_stream(ck, d)
